@@ -615,7 +615,11 @@ from vlib.isolate import run_in_fork, ChildFailed  # noqa: E402
 TOWERS = [('Sum', ['9', '12', 'n^n^n', 'n']), ('Sum', ['1', '200', 'n^n', 'n']), ('Sum', ['1', '12', 'n^n^n', 'n']),
           ('Sum', ['1', '30', '2^n^n', 'n']), ('Sum', ['3', '5', 'n^n^n^n', 'n']), ('Sum', ['9', '9', '(n+1)^(n+2)^(n+3)', 'n']),
           ('Sum', ['1', '40', 'n^(n^2)^n', 'n']), ('F', '9^9^9^9'), ('F', '(zqx+8)^(zqx+8)^(zqx+8)'), ('N', '9^9^9'),
-          ('N', '10^10^10'), ('M', '[9,9]^9^9^9'), ('F', 'zqx^1000^1000'), ('N', '7^7^7^7^7'), ('F', '2^2^2^2^2^2^2')]
+          ('N', '10^10^10'), ('M', '[9,9]^9^9^9'), ('F', 'zqx^1000^1000'), ('N', '7^7^7^7^7'), ('F', '2^2^2^2^2^2^2'),
+          # summation limits beyond 2^53, where n + 1 == n in floating point: a few terms, not an endless loop
+          ('Sum', ['2^53', '2^53+2', '1', 'n']), ('Sum', ['9007199254740992', '9007199254740994', 'n*0+1', 'n']),
+          ('Sum', ['1e16', '1e16', '1', 'n']), ('Sum', ['2^54', '2^54+4', '1/n', 'n']), ('Sum', ['-2^53-2', '-2^53', '1', 'n']),
+          ('Sum', ['1e300', '1e300', '1', 'n']), ('Sum', ['1e15', '1e15+3', 'n-1e15', 'n'])]
 
 
 def items_towers(tier):
